@@ -7,7 +7,7 @@ PID = "C06"
 ALLOWED_AXIOMS = []
 CORRESPONDENCE = "Vm::eval of (builtin args...) sessions, lex::scan, parse::parse_text, sliced evaluation and the highlighter vs the Coq models"
 RULE = ("every registered builtin (names regenerated from vm/builtin/*.rs) x arity 0..5 x an argument palette of "
-        "expressions covering all value kinds and boundary values (quick: a sample per builtin and arity; thorough: all values at arity 1, 700 of the palette's pairs per builtin at arity 2, 40 tuples per higher arity), six calls per session in ONE vm followed by the probe (+ 1 2) "
+        "expressions covering all value kinds and boundary values (quick: a sample per builtin and arity; thorough: all values at arity 1, 250 of the palette's pairs per builtin at arity 2, 20 tuples per higher arity), six calls per session in ONE vm followed by the probe (+ 1 2) "
         "= 3 (the vm still works); circular lists / self-containing vectors for list? length equal? display write and as "
         "the value of an evaluation; Unicode text and token soup through scanner, parser, evaluator, sliced evaluator "
         "and highlighter; debug build (the profile in which arithmetic overflow panics); non-trivial = a builtin call with at least one argument "
@@ -138,10 +138,10 @@ def generate(rng, tier):
             for a in range(P):
                 calls.append("(%s %s)" % (name, PALETTE[a]))
             pairs = [(a, b) for a in range(P) for b in range(P)]
-            for a, b in rng.sample(pairs, 700):       # a quarter of the P*P pairs per builtin and run
+            for a, b in rng.sample(pairs, 250):       # a tenth of the P*P pairs per builtin and run
                 calls.append("(%s %s %s)" % (name, PALETTE[a], PALETTE[b]))
             for k in (3, 4, 5):
-                for _ in range(40):
+                for _ in range(20):
                     calls.append("(%s %s)" % (name, " ".join(rng.choice(PALETTE) for _ in range(k))))
         else:
             for k in (1, 2, 3, 4, 5):
@@ -163,7 +163,7 @@ def generate(rng, tier):
             fills = [[0, 1, 2]] * (k - 2)
             allf = list(itertools.product(*fills)) if fills else [()]
             if not mutator and (per is not None or len(allf) > 9):
-                allf = rng.sample(allf, min(len(allf), 2 if per is not None else 9))
+                allf = rng.sample(allf, min(len(allf), 2 if per is not None else 3))
             for fl in allf:
                 it = iter(fl)
                 args = [obj if i in pos else str(next(it)) for i in range(k)]
@@ -200,13 +200,13 @@ def generate(rng, tier):
         cases.append([72, rng.choice([1, 2, 7, 50])] + c[1:])
     # whole programs (recursion, closures, continuations re-entered after their evaluation ended - also ones captured
     # after the VM stack has grown -, failing forms): the same vm must keep accepting input
-    nprog = 400 if tier == "quick" else 8000
+    nprog = 400 if tier == "quick" else 2000
     for _ in range(nprog):
         forms, _feat = vmgen.gen_program(rng, err_p=0.08)
         cases.append(sess(forms + [PROBE]))
     # text soup through every text entry point
     pool = list("()[]{}'`,.#\"\\;|") + list("abcxyz0123456789+-/ \n\t") + ["λ", "\u00a0", "é", "中", "😀", "\x07", "#\\", "#(", "#t", "#x", "1/", "1e", "-", "..."]
-    nsoup = 3000 if tier == "quick" else 60000
+    nsoup = 3000 if tier == "quick" else 30000
     for _ in range(nsoup):
         s = "".join(rng.choice(pool) for _ in range(rng.randint(0, 30)))
         cps = [ord(ch) for ch in s]
